@@ -63,7 +63,19 @@ func (r *verifRig) verifLoggedOnState(kind int, T int) {
 func (r *verifRig) verifEvent(name string, T int, maxS int) *Message {
 	S := ndInt(name+".S", verifSeqLo(), maxS)
 	var m *Message
-	switch verifConc(ndInt(name+".type", 0, 5)) {
+	maxType := 5
+	if r.allEventTypes {
+		maxType = 7
+	}
+	switch verifConc(ndInt(name+".type", 0, maxType)) {
+	case 6:
+		verifCase("business-reject-message")
+		m = r.inbound("j", S) // an application-level message type the application may itself refuse
+		m.Body.SetString(Tag(58), "no")
+	case 7:
+		verifCase("reject-message")
+		m = r.inbound("3", S)
+		m.Body.SetInt(tagRefSeqNum, 1)
 	case 0:
 		verifCase("app")
 		m = r.appMessage(S)
@@ -124,6 +136,7 @@ func VerifHarness_C01_step() {
 		r.s.ResendRequestChunkSize = 2
 	}
 	r.app.appMayReject = true
+	r.allEventTypes = true
 	T := ndInt("T", verifSeqLo(), 60)
 	r.setCounters(T, ndInt("N", 1, 9))
 	kind := verifConc(ndInt("state", 0, 4))
